@@ -602,6 +602,10 @@ func contractHasProperty(c *Contract, prop string) bool {
 }
 
 func writeFailureEvidence(verif, prop, tier string, seed int, start time.Time, why string) {
+	if os.Getenv("WKV_NO_EVIDENCE") != "" {
+		// debug / must-fail corpus runs never touch the evidence files
+		return
+	}
 	ev := map[string]any{
 		"property_id": prop, "tier": tier, "seed": seed, "level": "proof",
 		"coverage": map[string]any{"evaluations": 1, "distinct_nontrivial": 0, "explanation": why},
